@@ -107,6 +107,12 @@ theorem abba_deadlocks :
 open Hub.Facts.LockFacts in
 theorem facts_shape :
     txnLockLoop = "sorted" ∧ txnLocksBeforeTime = true ∧ txnUnlock = "deferred"
+    -- core.Dataset is moved behind the sorted names (every writer takes its own dataset's lock first and core.Dataset's inside it)
+    -- and its lock is given back after the data commit, before the transaction's own counter updates (defect D36 was the
+    -- transaction waiting for itself there)
+    ∧ txnCoreLock = ["datasetNames = append(datasetNames, k)", "if k == \"core.Dataset\"",
+        "datasetNames = append(append(datasetNames[:i:i], datasetNames[i+1:]...), k)", "coreLocked := false", "if k == \"core.Dataset\"",
+        "coreLocked = true", "if coreLocked", "if coreLocked", "datasets[\"core.Dataset\"].WriteLock.Unlock()", "coreLocked = false"]
     ∧ storeLock = ["ds.WriteLock.Lock()", "defer:ds.WriteLock.Unlock()"]
     ∧ dsmLocks = ["CreateDataset:dsm.lock.Lock()", "UpdateDataset:dsm.lock.Lock()", "UpdateDataset:ds.WriteLock.Lock()", "DeleteDataset:dsm.lock.Lock()"]
     ∧ idmuxLeaf = ["commitIDTxn:s.idmux.Lock()", "assertIDForURI:s.idmux.Lock()"]
